@@ -248,7 +248,10 @@ def prog_worker(inst):
             with lazy:
                 lz = build(prog, conc_leaves(prog, rng))
             pin, pout = type_of(prog)
-            check_result_type(lz, pin, pout, exact_inputs=True, check_dtype=False)
+            # "exactly these for a lazily built substitution": only when the result IS a Subs term; a substitution of a
+            # bound/fresh name (e.g. the Stack's own input) is evaluated even under `lazy` and may then omit inputs of
+            # the parts that were not selected (the property's subset rule)
+            check_result_type(lz, pin, pout, exact_inputs=isinstance(lz, funsor.terms.Subs), check_dtype=False)
         except TypeViolation as e:
             out.update(status="violation", kind="type", detail="lazily built Subs: " + str(e))
         except Exception:
